@@ -46,7 +46,8 @@ func perturb(seed int64) func() {
 
 // ---------- memo (C09) ----------
 // mode: 0 per-invocation injector, 1 per-invocation fallible injector (TerminalError first),
-//       2 static injector (key = init arguments of each chain), 3 interface-typed input with nil / "" / values
+//
+//	2 static injector (key = init arguments of each chain), 3 interface-typed input with nil / "" / values
 func genMemo(r *rng) string {
 	mode := r.intn(5)
 	nChains := 1 + r.intn(3)
@@ -89,7 +90,9 @@ func runMemo(line string) string {
 	var seq int32
 	var unhashableCalls int32
 	count := func(a any, b T0) T1 {
-		if _, isSlice := a.([]int); isSlice {
+		_, isSlice := a.([]int)
+		_, isOpaque := a.(Opaque)
+		if isSlice || isOpaque {
 			atomic.AddInt32(&unhashableCalls, 1)
 			return T1{P: int(atomic.AddInt32(&seq, 1)), S: b.S}
 		}
@@ -102,7 +105,11 @@ func runMemo(line string) string {
 	// key values: for mode 3 the interface input takes nil, "", 0 and a struct
 	mkKey := func(k int) (any, T0) {
 		if mode == 4 {
-			// a value that cannot be a map key: the function must be called each time, no panic
+			// a value that cannot be a map key: the function must be called each time, no panic -
+			// a slice, or a comparable struct with a non-nil interface in an unexported field
+			if k%2 == 1 {
+				return Opaque{P: k, S: 1, x: "opaque"}, T0{1, 1}
+			}
 			return []int{k}, T0{1, 1}
 		}
 		if mode == 3 {
@@ -237,10 +244,17 @@ func runOnce(line string) string {
 	seed, nChains, nG := int64(atoi(f[1])), atoi(f[2]), atoi(f[3])
 	defer perturb(seed)()
 	var singletonCalls int32
-	single := nject.Singleton(func() T2 { runtime.Gosched(); return T2{P: int(atomic.AddInt32(&singletonCalls, 1))} })
+	// slow enough that the first invocations of the chains overlap: a second caller must wait for
+	// the first call's result, not run the provider again
+	single := nject.Singleton(func() T2 {
+		runtime.Gosched()
+		time.Sleep(200 * time.Microsecond)
+		return T2{P: int(atomic.AddInt32(&singletonCalls, 1))}
+	})
 	var fallibleSingletonCalls int32
 	fsingle := nject.Singleton(func() (T4, nject.TerminalError) {
 		runtime.Gosched()
+		time.Sleep(100 * time.Microsecond)
 		return T4{P: int(atomic.AddInt32(&fallibleSingletonCalls, 1))}, nil
 	})
 	type chain struct {
@@ -280,7 +294,11 @@ func runOnce(line string) string {
 				}
 			}()
 			<-start
-			for i, c := range chains {
+			// each goroutine starts with another chain, so that the static parts of different chains -
+			// which share the Singleton providers - run at the same time
+			for k := range chains {
+				i := (k + g) % len(chains)
+				c := chains[i]
 				s, t := c.init(T0{1, 100*g + i}) // later init arguments must be ignored
 				v := c.invoke()
 				inits[g] = append(inits[g], fmt.Sprintf("%d:%d.%d.%d.%d", i, s.P, t.P, t.S, v.S))
@@ -301,6 +319,9 @@ func runOnce(line string) string {
 		}
 	}
 	// every goroutine saw the same values from every init of a chain
+	for g := 0; g < nG; g++ {
+		sort.Strings(inits[g])
+	}
 	for g := 1; g < nG; g++ {
 		if strings.Join(inits[g], " ") != strings.Join(inits[0], " ") {
 			return "BAD init results differ between callers: " + strings.Join(inits[0], " ") + " vs " + strings.Join(inits[g], " ")
